@@ -415,6 +415,12 @@ def _oracle_c13(ctx, desc, f0, spec, src, out, m, m2, label, before, after, audi
             dd = same(got, exp, dtype=False, **kw)
             if dd:
                 V('reload', 'reloaded model.%s differs from the source: %s' % (name, dd), attr=name)
+    # exported files are files of their own (not hard links to source files)
+    for fn in sorted(os.listdir(out)):
+        fp = os.path.join(out, fn)
+        if os.path.isfile(fp) and not os.path.islink(fp) and os.stat(fp).st_nlink > 1:
+            V('output_is_hard_link', 'exported file %s is a hard link (st_nlink=%d)' % (fn, os.stat(fp).st_nlink), file=fn)
+            break
     # source directory effects
     created, deleted, changed = snapshot_diff(before, after)
     for fn in changed:
